@@ -1107,6 +1107,13 @@ func init() {
 				}
 				return Tuple{v, nilErr()}, true
 			}
+			if base == 0 {
+				v, ok := e.parseInt0(s, bits)
+				if !ok {
+					return Tuple{ci(0), e.newError("strconv.ParseInt: invalid syntax")}, true
+				}
+				return Tuple{v, nilErr()}, true
+			}
 			panic(unsupported(fmt.Sprintf("ParseInt base %d on symbolic string", base)))
 		},
 		"strconv.FormatInt": func(e *Exec, a []Value) (Value, bool) {
@@ -1309,6 +1316,80 @@ func init() {
 		intrinsics[name] = f
 	}
 	_ = sort.Ints
+}
+
+// parseInt0: strconv.ParseInt(s, 0, bits) on a string with symbolic bytes: sign, then the base chosen by the prefix
+// (0x hexadecimal, 0b binary, 0o or a bare leading 0 octal, decimal otherwise). Underscores are not modelled.
+func (e *Exec) parseInt0(s Str, bits int) (Int, bool) {
+	n := s.Len()
+	if n == 0 {
+		return ci(0), false
+	}
+	for k := 0; k < n; k++ {
+		if e.branch(e.intCmp(token.EQL, s.At(k), byteC('_'))) {
+			panic(unsupported("ParseInt base 0 with an underscore in symbolic text"))
+		}
+	}
+	i := 0
+	neg := false
+	if e.branch(e.byteIn(s.At(0), "+-")) {
+		neg = e.branch(e.intCmp(token.EQL, s.At(0), byteC('-')))
+		i = 1
+		if n == 1 {
+			return ci(0), false
+		}
+	}
+	rest := s.Sub(i, n)
+	if e.branch(e.byteIn(rest.At(0), "+-")) {
+		return ci(0), false
+	}
+	radix := func(t Str, r int64) (Int, bool) {
+		if t.Len() == 0 {
+			return ci(0), false
+		}
+		if t.Len() > 20 {
+			panic(unsupported("ParseInt base 0 on more than 20 symbolic digits"))
+		}
+		acc := Int{W: 64, Sg: true}
+		for k := 0; k < t.Len(); k++ {
+			b := t.At(k)
+			if !e.branch(e.inRangeI(b, '0', '0'+r-1)) {
+				return ci(0), false
+			}
+			acc = e.intBin(token.ADD, e.intBin(token.MUL, acc, ci(int(r))), e.intBin(token.SUB, e.intConv(b, 64, true), ci(int(byte(48)))))
+		}
+		return acc, true
+	}
+	var v Int
+	var ok bool
+	if rest.Len() >= 2 && e.branch(e.intCmp(token.EQL, rest.At(0), byteC('0'))) {
+		c := rest.At(1)
+		switch {
+		case e.branch(e.byteIn(c, "xX")):
+			v, ok = e.parseHex(rest.Sub(2, rest.Len()), 64)
+		case e.branch(e.byteIn(c, "bB")):
+			v, ok = radix(rest.Sub(2, rest.Len()), 2)
+		case e.branch(e.byteIn(c, "oO")):
+			v, ok = radix(rest.Sub(2, rest.Len()), 8)
+		default:
+			v, ok = radix(rest.Sub(1, rest.Len()), 8)
+		}
+	} else {
+		v, ok = e.atoi(rest, 64)
+	}
+	if !ok {
+		return ci(0), false
+	}
+	if neg {
+		v = e.intNeg(v)
+	}
+	if bits < 64 {
+		lim := int64(1) << uint(bits-1)
+		if !e.branch(e.inRangeI(v, -lim, lim-1)) {
+			return ci(0), false
+		}
+	}
+	return v, true
 }
 
 func (e *Exec) parseHex(s Str, bits int) (Int, bool) {
